@@ -52,9 +52,13 @@ def _float_point(draw, span=4.0):
 @st.composite
 def planar_graph(draw, min_nodes=2, max_nodes=8, label_kinds=("int", "str"), families=None,
                  self_listed=True, dup_locations=False, chain_steps=None):
-    fam = draw(st.sampled_from(families or ["grid", "grid", "float", "chain", "chain", "oneway", "twocomp"]))
+    fam = draw(st.sampled_from(families or ["grid", "grid", "float", "chain", "chain", "oneway", "twocomp", "mesh"]))
     kind = draw(st.sampled_from(list(label_kinds)))
     n = draw(INT(max(min_nodes, 4 if fam in ("chain", "twocomp") else min_nodes), max(max_nodes, min_nodes)))
+    if fam == "mesh":
+        rows = 2 if max_nodes < 9 or chance(draw, 4) else 3
+        cols = max(2, min(max_nodes // rows, pick(draw, [2, 3, 3, 4])))
+        n = rows * cols
     labs = draw(labels(n, kind))
     locs, used = [], set()
     nbrs = [[] for _ in range(n)]
@@ -65,7 +69,21 @@ def planar_graph(draw, min_nodes=2, max_nodes=8, label_kinds=("int", "str"), fam
         if both and i != j and labs[i] not in nbrs[j]:
             nbrs[j].append(labs[i])
 
-    if fam == "chain":
+    if fam == "mesh":
+        # jittered rows x cols street grid, all streets two-way, a few diagonals: many candidates per observation
+        for r in range(rows):
+            for c in range(cols):
+                locs.append((round(r + draw(INT(-15, 15)) / 100.0, 2), round(c + draw(INT(-15, 15)) / 100.0, 2)))
+        for r in range(rows):
+            for c in range(cols):
+                i = r * cols + c
+                if c + 1 < cols:
+                    add(i, i + 1, True)
+                if r + 1 < rows:
+                    add(i, i + cols, True)
+                if c + 1 < cols and r + 1 < rows and chance(draw, 2):
+                    add(i, i + cols + 1, not chance(draw, 3))
+    elif fam == "chain":
         y, x, ang = 0.0, 0.0, 0.0
         nmain = n - draw(INT(0, min(2, n - 3)))
         for i in range(nmain):
